@@ -28,6 +28,11 @@ def impl_main(mode, fin, fout):
         try:
             decays = {n: DecayMode(bf, list(ds), **info) for n, bf, ds, info in c["decays"]}
             dc = DecayChain(c["mother"], decays)
+            if mode == "visible":
+                # DecayChain.visible_bf: the branching fraction of the fully flattened chain (no particle kept stable),
+                # whatever stable set this case uses for its flatten() call
+                out.append(jval(dc.visible_bf))
+                continue
             before = json.dumps(jval(dc.to_dict()), sort_keys=True)
             keys_before = list(dc.decays.keys())
             st = c["stable"]
@@ -134,6 +139,15 @@ def main():
     model = vlib.run_model("C12", ["Lib.PyDict", "Decay.Conj", "Decay.Flatten"], "fun v : val => v", terms, shard=300)
     # exceptions: model says ValueError / KeyError, implementation reports the exception type
     diffs = vlib.compare_veq(ck, cases, impl, model)
+    # visible_bf of every chain against the model's full flattening
+    vis = vlib.run_impl("c12.py", enc(cases), mode="visible")
+    vterms = [f"vfres (flatten 400 {coq_chain(c)} [])" for c in cases]
+    vmodel = vlib.run_model("C12v", ["Lib.PyDict", "Decay.Conj", "Decay.Flatten"], "fun v : val => v", vterms, shard=300)
+    vexp = [m[0] if isinstance(m, list) else m for m in vmodel]
+    vdiffs = [i for i, (a, b) in enumerate(zip(vis, vexp)) if not vlib.veq(a, b) and not (isinstance(a, dict) and isinstance(b, dict) and "err" in a and "err" in b)]
+    ck.cov["evaluations"] += len(cases)
+    ck.cov["traces_validated_against_impl"] += len(cases) - len(vdiffs)
+    ck.notes["visible_bf_compared"] = len(cases)
     ck.cov["distinct_nontrivial"] = len({json.dumps(enc(c), sort_keys=True) for c in cases if len(c["decays"]) > 1})
     ck.cov["rule"] = ("exhaustive: all chain shapes with <=3 decaying particles, daughter multiplicities <=2 (every decaying "
                       "particle reachable) x stable subsets x orders of the decays mapping (sampled 2x2 per shape in the quick "
@@ -144,10 +158,12 @@ def main():
                                 "with_stable": sum(1 for c in cases if c["stable"]),
                                 "mother_in_stable": sum(1 for c in cases if c["mother"] in c["stable"])}
     hits = []
+    for i in vdiffs[:5]:
+        hits.append((enc(cases[i]), "visible_bf differs from the product of the branching fractions of all decays in the tree"))
     if diffs or getattr(ck, "proof_failed", None):
         sus = [cases[i] for i in diffs] if diffs else cases
         orc = vlib.run_impl("c12.py", enc(sus), mode="oracle")
-        hits = [(enc(c), v[0]) for c, v in zip(sus, orc) if v]
+        hits += [(enc(c), v[0]) for c, v in zip(sus, orc) if v]
         if not hits and diffs:
             orc = vlib.run_impl("c12.py", enc(cases), mode="oracle")
             hits = [(enc(c), v[0]) for c, v in zip(cases, orc) if v]
@@ -156,7 +172,7 @@ def main():
 
 
 if __name__ == "__main__":
-    if len(sys.argv) > 1 and sys.argv[1] in ("impl", "oracle"):
+    if len(sys.argv) > 1 and sys.argv[1] in ("impl", "oracle", "visible"):
         impl_main(sys.argv[1], sys.argv[2], sys.argv[3])
     else:
         main()
